@@ -300,12 +300,7 @@ def run(ctx: Ctx):
         for st in mod.body:
             if isinstance(st, ast.Try):
                 ctx.fail("R08.c", f"{rel}::<module>::try", "module-level try/except is not in the vetted table", f"{rel}:{st.lineno}")
-    e2 = sm.func("expressions.py", "build_expression.expr2symbols")
-    hs = [h for n in ast.walk(e2.node) if isinstance(n, ast.Try) for h in n.handlers]
-    ok = bool(hs) and any(isinstance(s, ast.Raise) and "MissingSymbolError" in norm(s) and s.cause is not None for s in hs[0].body)
-    lookups = [n for n in ast.walk(e2.node) if isinstance(n, ast.Call) and isinstance(n.func, ast.Attribute) and n.func.attr in ("get", "setdefault") and norm(n.func.value) == "symbols_"]
-    sub = [n for n in ast.walk(e2.node) if isinstance(n, ast.Subscript) and norm(n.value) == "symbols_"]
-    ctx.check(ok and not lookups and bool(sub), "R08.c", e2.key("undefined-symbol"), "symbols_[name] -> KeyError -> MissingSymbolError", "build_expression: an undefined symbol is not turned into MissingSymbolError (lookup with a default, or the handler no longer re-raises)", e2.where())
+    check_undefined_symbol(ctx, "R08.c")
     sa = sm.func("ode.py", "sort_assignments")
     ctx.check(not any(isinstance(n, ast.Try) for n in ast.walk(sa.node)) and any(isinstance(c, ast.Call) and norm(c.func).endswith("static_order") for c in ast.walk(sa.node)), "R08.c", sa.key("cycle"), "graphlib.CycleError propagates from static_order()", "sort_assignments catches exceptions around the topological sort (cyclic definitions could be accepted)", sa.where())
 
@@ -329,3 +324,32 @@ def run(ctx: Ctx):
         ctx.undecided("R08.d", gaf.key("fresh-dict"), "how gather_atoms builds the symbol dict is not understood", gaf.where())
     else:
         ctx.check(gf["symbols"]["_fresh"], "R08.d", gaf.key("fresh-dict"), "gather_atoms starts from an empty dict", f"gather_atoms does not start the symbol dict empty ({_av.show(gf['symbols']['_value'])[:80]}): names of earlier models stay defined", gaf.where())
+
+
+def check_undefined_symbol(ctx: Ctx, rule: str):
+    """expr2symbols, `variable` nodes: the value is a plain subscript lookup in the symbol table, guarded by a handler
+    that turns the KeyError of an undefined name into MissingSymbolError (read from what the function computes, so the
+    lookup may live in a helper)."""
+    from sa import av as _av
+
+    from . import util
+
+    e2 = ctx.sm.func("expressions.py", "build_expression.expr2symbols")
+    A = util.AV(ctx)
+    v, _env = A.returned(e2)
+    cases = util.dispatch_cases(v, ("sym", f"{e2.params[0]}.data"))
+    cv = cases.get("variable")
+    key = e2.key("undefined-symbol")
+    if cv is None or _av.has_unk(cv):
+        ctx.undecided(rule, key, "what expr2symbols computes for `variable` nodes is not understood", e2.where())
+        return
+    defaults = [m for m in _av.find_all(cv, "mcall") if m[2] in ("get", "setdefault", "pop")]
+    if defaults:
+        ctx.fail(rule, key, f"build_expression: an undefined symbol is not turned into MissingSymbolError: the name is looked up with a default ({_av.show(defaults[0])[:100]})", e2.where())
+        return
+    if cv[0] != "sub":
+        ctx.undecided(rule, key, f"`variable` nodes are not resolved by a subscript lookup ({_av.show(cv)[:100]}); the error for undefined names is not judged", e2.where())
+        return
+    guards = [g for g in A.handler_log if g[1].split(".")[-1] in ("KeyError", "LookupError") and g[3] == cv]
+    ok = any(g[2][0] == "raise" and len(g[2]) > 1 and str(g[2][1]).split(".")[-1] == "MissingSymbolError" for g in guards)
+    ctx.check(ok, rule, key, "symbols_[name] -> KeyError -> MissingSymbolError", "build_expression: an undefined symbol is not turned into MissingSymbolError (" + ("the KeyError handler raises " + _av.show(guards[0][2]) if guards else "no handler turns the KeyError of the lookup into it") + ")", e2.where())
